@@ -92,6 +92,12 @@ static inline const E *l0_bound(const E *f, const E *l, const E *v, int token, _
   g_ncmp += cost;
   return L0_PADD(f, +, r);
 }
+/* std::find on the elements of a set decides with operator== of the elements: not the set's equivalence */
+static inline const E *L0_find(const E *f, const E *l, const E *v) {
+  (void)f; (void)v;
+  L0_assert(0, "C03 C04: every ordering and equivalence decision uses the comparator object the set was constructed with (std::find compares with operator==)");
+  return l;
+}
 /* a binary search that does not pass the set's comparator orders with operator< of the elements: another order */
 static inline const E *l0_bound_no_cmp(const E *f, const E *l, const E *v) {
   (void)v;
